@@ -6,4 +6,5 @@ export CARGO_NET_OFFLINE=true
 python3 tools/translate.py || true
 (cd lean && lake build RitiModel driver)
 (cd harness && cargo build --release --offline)
+./ffi/build.sh
 echo setup-done
